@@ -460,9 +460,9 @@ def c15_others(rep, d, inputs, tier):
             gc, wc = read(os.path.join(out, "kmers.counts")), want[1]
             if ok and sorted(lines_of(gc) or []) != sorted(lines_of(wc) or []):
                 ok = False
-            left = sorted(os.listdir(out))
-            if ok and left != ["kmers.counts", "kmers.vectors"]:
-                rep.violation("unexpected-files", 5, "%s: output directory holds %s" % (cmdline, left), "c15_other", a)
+            left = sorted(f for f in os.listdir(out) if f.startswith("temp_"))
+            if ok and left:
+                rep.violation("temp-file-survives", 5, "%s: output directory still holds %s" % (cmdline, left), "c15_other", a)
         elif kind == "min":
             got = read(out)
             ok = got is not None and want is not None and sorted(lines_of(got)) == sorted(lines_of(want)) if o["preset"] == "s2m" else None
@@ -471,8 +471,8 @@ def c15_others(rep, d, inputs, tier):
         else:
             got = read(os.path.join(out, "kmers.counts"))
             ok = got is not None and want is not None and sorted(lines_of(got)) == sorted(lines_of(want))
-            left = sorted(os.listdir(out))
-            if ok and left != ["kmers.counts"]:
+            left = sorted(f for f in os.listdir(out) if f.startswith("temp_"))
+            if ok and left:
                 rep.violation("temp-file-survives", 5, "%s: output directory holds %s after the run" % (cmdline, left), "c15_other", a)
         if not ok:
             rep.violation("cli-differs-from-library", 5, "%s: result differs from the library result for the same settings" % cmdline, "c15_other", a)
@@ -744,9 +744,9 @@ def c16_check(variant, recs, t, wd):
         got = parse_counts(read(os.path.join(out, "kmers.counts")), False, kk)
         if got is None or got != pm.counts(recs, kk):
             return ("row-value", "%s: kmers.counts %r, model %r" % (cmdline, got, pm.counts(recs, kk)))
-        left = sorted(os.listdir(out))
-        if left != ["kmers.counts"]:
-            return ("temp-file-survives", "%s: directory holds %s" % (cmdline, left))
+        left = sorted(f for f in os.listdir(out) if f.startswith("temp_"))
+        if left:
+            return ("temp-file-survives", "%s: directory still holds %s" % (cmdline, left))
     return None
 
 
